@@ -1401,6 +1401,44 @@ def r67(ctx, repo):
                key=f"{rel}::{where}::identifier stable", nontrivial=False)
 
 
+def r69(ctx, repo):
+    """`_ancillaries`, `_usertemp`, the basin list, the filter: everything
+    a dataset fills lazily must be its own.  An attribute bound at class
+    level to a mutable object and mutated in place through ``self`` without
+    being re-bound per instance in ``__init__`` is one object for every
+    dataset of the process – a feature computed for one measurement would
+    be served for another.  Judged for every class of core.py and of the
+    format modules (one obligation per class); registries addressed through
+    the class name (`AncillaryFeature.features`) are intended sharing."""
+    from ..lib_common import shared_class_state
+    rels = [CORE, "dclab/rtdc_dataset/feat_temp.py",
+            "dclab/rtdc_dataset/fmt_dict.py",
+            "dclab/rtdc_dataset/fmt_hdf5/base.py",
+            "dclab/rtdc_dataset/fmt_hdf5/events.py",
+            "dclab/rtdc_dataset/fmt_hierarchy/base.py",
+            "dclab/rtdc_dataset/fmt_hierarchy/events.py",
+            "dclab/rtdc_dataset/fmt_tdms/__init__.py",
+            FA + "ancillary_feature.py",
+            "dclab/rtdc_dataset/feat_anc_plugin/plugin_feature.py"]
+    n = 0
+    for rel in rels:
+        for c in [x for x in ast.walk(repo.tree(rel))
+                  if isinstance(x, ast.ClassDef)]:
+            n += 1
+            found = shared_class_state(c)
+            attrs = sorted({a for a, _, _ in found})
+            ctx.ob("R6.9", not found,
+                   f"{c.name}: no class-level mutable object is mutated "
+                   "through an instance" if not found else
+                   f"{c.name}: `{attrs[0]}` is bound at class level to a "
+                   "mutable object and changed in place through self "
+                   f"(`{short(found[0][2], 50)}`), __init__ never gives the "
+                   "instance its own: every dataset of the process shares it",
+                   node=found[0][2] if found else c,
+                   key=f"{rel}::{c.name}::cache state per dataset")
+    ctx.stat("R6.9 classes", n)
+
+
 def run(ctx):
     repo = ctx.repo
     ctx.rule("R6.1", "per registered recipe: every value-affecting read of "
@@ -1422,6 +1460,10 @@ def run(ctx):
              "call (no memo, no short-cut return)", minimum=4)
     ctx.rule("R6.7", "the registry of external look-up tables is write-once "
              "(recipe hashes contain the LUT identifier only)", minimum=2)
+    ctx.rule("R6.9", "the caches of computed / temporary features belong "
+             "to one dataset: no class-level mutable object of the dataset "
+             "classes is mutated through self", minimum=8)
+    r69(ctx, repo)
     instances = fold_registry(repo)
     ctx.stat("registered recipes folded", len(instances))
     ctx.stat("recipes per module", {
@@ -1484,6 +1526,10 @@ def _drop(s, what):
 
 
 MUTANTS = [
+    ("ancillary cache shared through a class-level dict", CORE,
+     [("class RTDCBase(abc.ABC):\n",
+       "class RTDCBase(abc.ABC):\n    _ancillaries = {}\n"),
+      ("        self._ancillaries = {}\n", "")], "R6.9"),
     ("recipe identifier not part of the hash (F06h returns)",
      "dclab/rtdc_dataset/feat_anc_core/ancillary_feature.py",
      ("        if self.identifier:\n"
